@@ -1158,6 +1158,7 @@ def deserialize_tensor(
             external_info.location,
             offset=external_info.offset,
             length=external_info.length,
+            checksum=external_info.checksum,
             dtype=_enums.DataType(proto.data_type),
             base_dir=base_path,
             name=_get_field(proto, "name"),
@@ -2135,6 +2136,7 @@ def serialize_tensor_into(
             "location": os.fspath(from_.location),
             "offset": from_.offset,
             "length": from_.length,
+            "checksum": getattr(from_, "checksum", None),
         }.items():
             if v is not None:
                 entry = tensor_proto.external_data.add()
